@@ -1354,12 +1354,26 @@ type envelopingWriter struct {
 	mustReleaseCurrent  bool
 	currentIsTrailer    bool
 	trailerIsCompressed bool
+	// fixedLength is true when the single message's length comes from the
+	// handler's declared Content-Length; bodyComplete is set once all of
+	// those bytes have been written.
+	fixedLength  bool
+	bodyComplete bool
 }
 
 func (w *envelopingWriter) Write(data []byte) (n int, err error) {
 	w.maybeInit()
 	if w.err != nil {
 		return 0, w.err
+	}
+	if w.bodyComplete {
+		if len(data) == 0 {
+			return 0, nil
+		}
+		err := fmt.Errorf("handler wrote more than the declared content-length of %d bytes", w.rw.contentLen)
+		w.rw.reportError(err)
+		w.err = err
+		return 0, err
 	}
 	if w.remainingBytes == -1 {
 		n, err := w.current.Write(data)
@@ -1411,6 +1425,16 @@ func (w *envelopingWriter) Write(data []byte) (n int, err error) {
 		} else {
 			// flush after each message and reset for next envelope
 			w.rw.flushMessage()
+			if w.fixedLength {
+				w.bodyComplete = true
+				if len(data) == 0 {
+					return written, nil
+				}
+				err := fmt.Errorf("handler wrote more than the declared content-length of %d bytes", w.rw.contentLen)
+				w.rw.reportError(err)
+				w.err = err
+				return written, err
+			}
 			w.writingEnvelope = true
 			w.remainingBytes = envelopeLen
 		}
@@ -1546,6 +1570,7 @@ func (w *envelopingWriter) maybeInit() {
 	// synthesize envelope
 	if limit := int(w.rw.op.methodConf.maxMsgBufferBytes); w.rw.contentLen > limit {
 		w.err = bufferLimitError(int64(limit))
+		w.rw.reportError(w.err)
 		return
 	}
 	var env envelope
@@ -1557,7 +1582,8 @@ func (w *envelopingWriter) maybeInit() {
 		return
 	}
 	w.current = w.w
-	w.remainingBytes = envelopeLen
+	w.fixedLength = true
+	w.remainingBytes = w.rw.contentLen
 }
 
 func (w *envelopingWriter) handleTrailer() error {
